@@ -178,7 +178,18 @@ static enum websocket_callback_return private_decompress(struct websocket *s, ui
 			print_converted_ret(ret);
 			goto error;
 		}
-	}while(strm->avail_out == 0);
+		if (ret == Z_STREAM_END) {
+			/*
+			 * The sender closed a block with BFINAL set (RFC 7692,
+			 * 7.2.3.4). More blocks follow, at least the empty
+			 * one appended above: carry on behind it with the
+			 * sliding window kept.
+			 */
+			if (inflateResetKeep(strm) != Z_OK) {
+				goto error;
+			}
+		}
+	}while((strm->avail_out == 0) || ((ret == Z_STREAM_END) && (strm->avail_in != 0)));
 	if (strm->avail_in != 0) {
 		log_err("Not all data is decompressed");
 		goto error;
